@@ -19,11 +19,11 @@ open Ipld Ipld.Schema Ipld.GoBind
 
       t | f | i<dec> | d<16 hex> | s<hex> | b<hex> | l<hex>     bool, integer, float64 bits, string, []byte, link (CID bytes)
       N <dm-term>                                   a datamodel.Node holding the data-model term (Term.lean)
-      nils | [ <goval>* ]                           nil slice | non-nil slice   (`nils` is also a nil []byte, in an optional /
-                                                    nullable struct field bound to the bare []byte; elsewhere nil and empty
-                                                    []byte are both `b`)
+      nils | [ <goval>* ]                           nil slice | non-nil slice   (nil and empty []byte are both `b`; in a `nilb` slot nil is `nilb`)
       nilp | & <goval>                              nil pointer | pointer to
-      nili                                          nil datamodel.Link / datamodel.Node (an optional / nullable struct field bound to the bare interface)
+      nilb                                          the nil of a bare nilable Go type (slice, []byte, datamodel.Link, datamodel.Node) in a slot
+                                                    where nil stands for absent / null (an optional field, or a nullable field / list element /
+                                                    map value, bound to that type without a pointer)
       ( <goval>* )                                  struct: the field values in order
       m <keys> <vals>                               ordered map
           keys = nk | k[ s<hex>* ]                  Keys == nil | Keys
@@ -92,7 +92,7 @@ def parseGoValFuel : Nat → List String → Option (GoVal × List String)
     | [] => none
     | "nils" :: rest => some (.nilSlice, rest)
     | "nilp" :: rest => some (.nilPtr, rest)
-    | "nili" :: rest => some (.nilIface, rest)
+    | "nilb" :: rest => some (.nilBare, rest)
     | "&" :: rest => (parseGoValFuel fuel rest).map fun (v, r) => (.ptr v, r)
     | "[" :: rest => (parseVals fuel "]" rest []).map fun (vs, r) => (.slice (GoVals.ofList vs), r)
     | "(" :: rest => (parseVals fuel ")" rest []).map fun (vs, r) => (.struct (GoVals.ofList vs), r)
@@ -175,7 +175,7 @@ def GoVal.toTokens : GoVal → List String
   | .nilSlice => ["nils"]
   | .slice xs => "[" :: (GoVals.toTokens xs ++ ["]"])
   | .nilPtr => ["nilp"]
-  | .nilIface => ["nili"]
+  | .nilBare => ["nilb"]
   | .ptr v => "&" :: GoVal.toTokens v
   | .struct vs => "(" :: (GoVals.toTokens vs ++ [")"])
   | .omap keys vnil vals =>
